@@ -186,6 +186,8 @@ func (es *evaluationScope) evaluatePrerequisite(
 	subScope.flag = prereqFlag
 	result, ok := subScope.evaluate(stack)
 	es.bigSegmentsStatus = computeUpdatedBigSegmentsStatus(es.bigSegmentsStatus, subScope.bigSegmentsStatus)
+	// keep memberships queried inside the prerequisite so that each context key is queried at most once
+	es.bigSegmentsMemberships = subScope.bigSegmentsMemberships
 	return result, ok
 }
 
